@@ -9,7 +9,8 @@ sys.path.insert(0, "lib")
 import vlib
 vlib.coq_project()
 PY
-timeout 3000 make -C coq -j16 >work/setup-coq.log 2>&1 || { tail -50 work/setup-coq.log; exit 1; }
+# -k: one broken file must not stop the others; every check rebuilds (and judges) its own cone anyway
+timeout 3000 make -C coq -k -j16 >work/setup-coq.log 2>&1 || { echo "WARNING: some Coq files failed to build (each check reports its own cone)"; grep -B2 -A8 "^Error" work/setup-coq.log | head -60; }
 python3 - <<'PY'
 import sys, os
 sys.path.insert(0, "lib")
